@@ -10,6 +10,7 @@ CONSTANTS
   DotAll = TRUE
   FindFirst = FALSE
   Emit = "lts"
+  BlockLen = 0
   MemoKeyJoined = FALSE
   JoinSep = 10
   MPool <- MCMPoolSmall
